@@ -731,14 +731,16 @@ class GitWorkingTree(MutableGitIndexTree, workingtree.WorkingTree):
             errors.ReadOnlyError: If attempting to write lock when already read-locked.
         """
         if not self._lock_mode:
-            self._lock_mode = "w"
-            self._lock_count = 1
             try:
                 self._index_file = GitFile(
                     self.control_transport.local_abspath("index"), "wb"
                 )
             except FileLocked as err:
                 raise errors.LockContention("index") from err
+            # Only now do we hold the lock: a refused attempt must leave this
+            # object unlocked.
+            self._lock_mode = "w"
+            self._lock_count = 1
             self._read_index()
         elif self._lock_mode == "r":
             raise errors.ReadOnlyError(self)
